@@ -819,7 +819,7 @@ pub fn workload(ctx: &mut Ctx) {
     let stat_n: u64 = match ctx.tier {
         Tier::Thorough => 1_000_000,
         Tier::Quick => 200_000,
-        Tier::Lite => 20_000,
+        Tier::Lite | Tier::Miri => 20_000,
     };
     // (1) lock-step + adversarial streams
     for &l in &[1usize, 2, 3, 4, 8] {
